@@ -40,6 +40,15 @@ def validate_structure(store: StoreLike) -> None:
     edges_group = expect_group(graph_group, _path.EDGES)
     _validate_edges_group(edges_group, metadata)
 
+    # The data types of the two id arrays must match
+    node_ids_dtype = np.dtype(expect_array(nodes_group, _path.IDS, _path.NODES).dtype)
+    edge_ids_dtype = np.dtype(expect_array(edges_group, _path.IDS, _path.EDGES).dtype)
+    if node_ids_dtype.newbyteorder("=") != edge_ids_dtype.newbyteorder("="):
+        raise ValueError(
+            f"Node ids and edge ids must have the same dtype, found {node_ids_dtype} "
+            f"and {edge_ids_dtype}"
+        )
+
     # Metadata based validation
     if metadata.axes is not None:
         _validate_axes_structure(graph_group, metadata)
@@ -56,9 +65,13 @@ def _validate_axes_structure(graph: zarr.Group, meta: GeffMetadata) -> None:
         graph (zarr.Group): The zarr group containing the geff metadata
         meta (GeffMetadata): Metadata from geff
     """
-    if meta.axes is not None:
-        node_prop_group = expect_group(graph, "nodes/props")
+    # Without axes nothing is required (the node props group is optional)
+    if meta.axes:
+        node_prop_group = expect_group(graph, _path.NODE_PROPS)
         for ax in meta.axes:
+            # The axis must name a node property (all of which are listed in the metadata)
+            if ax.name not in meta.node_props_metadata:
+                raise ValueError(f"Axis {ax.name} data is missing")
             # Array must be present without missing values
             if f"{ax.name}/values" not in node_prop_group:
                 raise ValueError(f"Axis {ax.name} data is missing")
@@ -78,6 +91,27 @@ def _dtype_matches(actual: np.dtype, stated: str) -> bool:
     if expected.kind in ("U", "T"):
         return np.dtype(actual).kind in ("U", "T")
     return bool(np.issubdtype(actual, expected))
+
+
+def _validate_optional_props_group(
+    parent_group: zarr.Group,
+    parent_name: str,
+    expected_len: int,
+    parent_key: str,
+    props_metadata: dict[str, PropMetadata],
+) -> None:
+    """Validate the `props` group of the nodes or edges group, which can be absent if
+    there are no properties."""
+    if parent_group.get(_path.PROPS) is None:
+        # every property in the metadata must be present
+        if len(props_metadata) > 0:
+            raise ValueError(
+                f"{parent_name!r} group must contain a group named {_path.PROPS!r} holding "
+                f"the properties {list(props_metadata)} listed in the metadata"
+            )
+        return
+    props_group = expect_group(parent_group, _path.PROPS, parent_name)
+    _validate_props_group(props_group, expected_len, parent_key, props_metadata)
 
 
 def _validate_props_group(
@@ -108,11 +142,19 @@ def _validate_props_group(
             )
 
         arrays = set(prop_group.array_keys())
+        # all members, to also find a `missing` or `data` member that is not an array
+        members = set(prop_group.keys())
         if _path.VALUES not in arrays:
             raise ValueError(
                 f"{parent_key} property group {prop_name!r} must have a {_path.VALUES!r} array"
             )
         val_arr = expect_array(prop_group, _path.VALUES)
+        # A 0d array has no first dimension to match the ids
+        if val_arr.ndim < 1:
+            raise ValueError(
+                f"{parent_key} property {prop_name!r} {_path.VALUES} must have at least one "
+                "dimension"
+            )
 
         # Check varlength cases
         if prop_metadata.varlength:
@@ -127,6 +169,17 @@ def _validate_props_group(
                     f"Property {prop_name} has stated dtype {prop_metadata.dtype} but actual "
                     f"dtype {data_arr.dtype}"
                 )
+            # values holds one row of (offset, *shape) per element, data is flattened
+            if val_arr.ndim != 2:
+                raise ValueError(
+                    f"Varlength property {prop_name} {_path.VALUES} array must be 2d, "
+                    f"received shape {val_arr.shape}"
+                )
+            if data_arr.ndim != 1:
+                raise ValueError(
+                    f"Varlength property {prop_name} {_path.DATA} array must be 1d, "
+                    f"received shape {data_arr.shape}"
+                )
         else:
             # check value dtype against metadata dtype
             if not _dtype_matches(val_arr.dtype, prop_metadata.dtype):
@@ -134,7 +187,7 @@ def _validate_props_group(
                     f"Property {prop_name} has stated dtype {prop_metadata.dtype} but actual "
                     f"dtype {val_arr.dtype}"
                 )
-            if _path.DATA in arrays:
+            if _path.DATA in members:
                 raise ValueError(
                     f"Found data array for property {prop_name} which is not a varlength property"
                 )
@@ -147,8 +200,13 @@ def _validate_props_group(
                 f"which does not match id length {expected_len}"
             )
 
-        if _path.MISSING in arrays:
+        if _path.MISSING in members:
             missing_arr = expect_array(prop_group, _path.MISSING)
+            if missing_arr.ndim != 1:
+                raise ValueError(
+                    f"{parent_key} property {prop_name!r} {_path.MISSING} mask must be 1d, "
+                    f"received shape {missing_arr.shape}"
+                )
             miss_len = missing_arr.shape[0]
             if miss_len != expected_len:
                 raise ValueError(
@@ -170,9 +228,14 @@ def _validate_nodes_group(nodes_group: zarr.Group, metadata: GeffMetadata) -> No
     if not np.issubdtype(np.dtype(node_ids.dtype), np.integer):
         raise ValueError("Node ids must have an integer dtype")
 
+    if node_ids.ndim != 1:
+        raise ValueError(f"Node ids must be 1d, received shape {node_ids.shape}")
+
+    # Node property array length should match node id length
     id_len = node_ids.shape[0]
-    node_props = expect_group(nodes_group, _path.PROPS, _path.NODES)
-    _validate_props_group(node_props, id_len, "Node", metadata.node_props_metadata)
+    _validate_optional_props_group(
+        nodes_group, _path.NODES, id_len, "Node", metadata.node_props_metadata
+    )
 
 
 def _validate_edges_group(edges_group: zarr.Group, metadata: GeffMetadata) -> None:
@@ -188,11 +251,6 @@ def _validate_edges_group(edges_group: zarr.Group, metadata: GeffMetadata) -> No
 
     # Edge property array length should match edge id length
     edge_id_len = edges_ids.shape[0]
-    edge_props = edges_group.get(_path.PROPS)
-    if edge_props is None:
-        return
-    if not isinstance(edge_props, zarr.Group):
-        raise ValueError(
-            f"{_path.EDGES!r} group must contain a {_path.PROPS!r} group. Got {type(edge_props)}"
-        )
-    _validate_props_group(edge_props, edge_id_len, "Edge", metadata.edge_props_metadata)
+    _validate_optional_props_group(
+        edges_group, _path.EDGES, edge_id_len, "Edge", metadata.edge_props_metadata
+    )
